@@ -14,18 +14,52 @@ def unnm(s):
     except ValueError: return UNKNOWN
 
 
+def has_behaviour(o):
+    """ground truth of "primitive leaf" (independent of Logic.isPrimitive / has_method): the block has a propagate() or clock() METHOD,
+    i.e. a callable attribute of that name; data stored under such a name (a wire in `self.clock`, `propagate = None`) is not behaviour"""
+    return callable(getattr(o, 'propagate', None)) or callable(getattr(o, 'clock', None))
+
+
+def block_classes(py4hw):
+    """user-written block classes as they occur in practice.  structural: no behaviour, but possibly DATA attributes whose names coincide with
+    the method names the kernel probes (clock / propagate / run / structureName / verilogBody); primitive: behaviour given as a method, an
+    inherited method, or a callable instance attribute, possibly next to non-callable attributes of the other probed names"""
+    L = py4hw.Logic
+    class S_plain(L): pass
+    class S_attr_clock(L):
+        def __init__(self, p, n): super().__init__(p, n); self.clock = object()          # e.g. self.clock = self.addIn('clock', clk)
+    class S_attr_propagate_none(L):
+        def __init__(self, p, n): super().__init__(p, n); self.propagate = None; self.run = 0
+    class S_class_attrs(L):
+        clock = 0
+        propagate = 'not a method'
+    class S_attr_misc(L):
+        def __init__(self, p, n): super().__init__(p, n); self.structureName = 'x'; self.verilogBody = None; self.clock = 5
+    class P_propagate(L):
+        def propagate(self): pass
+    class P_clock(L):
+        def clock(self): pass
+    class P_both(L):
+        def propagate(self): pass
+        def clock(self): pass
+    class P_instance_callable(L):
+        def __init__(self, p, n): super().__init__(p, n); self.propagate = lambda: None
+    class P_inherited_with_data_clock(P_propagate):
+        clock = None
+    class P_clock_with_data_propagate(L):
+        def __init__(self, p, n): super().__init__(p, n); self.propagate = 7
+        def clock(self): pass
+    return ((S_plain, S_attr_clock, S_attr_propagate_none, S_class_attrs, S_attr_misc),
+            (P_propagate, P_clock, P_both, P_instance_callable, P_inherited_with_data_clock, P_clock_with_data_propagate))
+
+
 class World:
     """the real side: objects / wires / ports are numbered in order of SUCCESSFUL creation"""
 
     def __init__(self):
         self.py4hw = py4hw = common.quiet_import()
-        class Struct(py4hw.Logic):                       # structural: neither propagate nor clock
-            pass
-        class PLeaf(py4hw.Logic):                        # primitive: has propagate()
-            def propagate(self): pass
-        class CLeaf(py4hw.Logic):                        # primitive: has clock()
-            def clock(self): pass
-        self.cls = (Struct, PLeaf, CLeaf)
+        self.struct_cls, self.prim_cls = block_classes(py4hw)
+        self.prim_mismatch = []          # (object index, isPrimitive(), has behaviour) where the library's notion of "primitive" is wrong
         self.objs, self.wires, self.ports = [], [], []
 
     # ---- executing one operation; returns (raised?, text of the exception)
@@ -35,10 +69,14 @@ class World:
         try:
             with quiet():
                 if k == 'NewLogic':
-                    _, par, n, prim = op
-                    cls = self.cls[0] if not prim else self.cls[1 + (n % 2)]
+                    par, n, prim = op[1], op[2], op[3]
+                    variant = op[4] if len(op) > 4 else n + (par or 0)
+                    fam = self.prim_cls if prim else self.struct_cls
+                    cls = fam[variant % len(fam)]
                     o = cls(None if par is None else self.objs[par], nm(n))
                     self.objs.append(o)
+                    if bool(o.isPrimitive()) != has_behaviour(o) or has_behaviour(o) != bool(prim):
+                        self.prim_mismatch.append((len(self.objs) - 1, cls.__name__, bool(o.isPrimitive()), has_behaviour(o)))
                 elif k == 'NewWire':
                     _, p, n, width = op
                     w = py4hw.Wire(self.objs[p], nm(n), width)
@@ -80,7 +118,7 @@ def dump_graph(py4hw, objs, wires, ports, name_of):
         return out
     O = []
     for o in objs:
-        O.append([[-1 if o.parent is None else ix(oid, o.parent), name_of(o.name), 1 if o.isPrimitive() else 0],
+        O.append([[-1 if o.parent is None else ix(oid, o.parent), name_of(o.name), 1 if has_behaviour(o) else 0],
                   tbl(o.children, oid), tbl(o._wires, wid),
                   [ix(pid, p) for p in o.inPorts], [ix(pid, p) for p in o.outPorts], [ix(pid, p) for p in o.inOutPorts]])
     W = []
@@ -150,7 +188,7 @@ def random_run(rng, n_ops, fault_rate=0.3, names=6):
             n = rng.randrange(names)
             if fault and par is not None and W.objs[par].children:
                 n = unnm(rng.choice(list(W.objs[par].children.keys())))
-            do(('NewLogic', par, n, rng.random() < 0.6))
+            do(('NewLogic', par, n, rng.random() < 0.6, rng.randrange(30)))
         elif x < 0.36 or nw == 0:
             p = rng.randrange(no); n = rng.randrange(names)
             if fault and W.objs[p]._wires:
@@ -160,7 +198,7 @@ def random_run(rng, n_ops, fault_rate=0.3, names=6):
             kind = rng.choice(['AddIn', 'AddIn', 'AddOut', 'AddOut', 'AddOut', 'AddInOut'])
             o = rng.randrange(no); w = rng.randrange(nw)
             if kind != 'AddIn':
-                prims = [i for i, ob in enumerate(W.objs) if ob.isPrimitive()]
+                prims = [i for i, ob in enumerate(W.objs) if has_behaviour(ob)]
                 driven = [i for i, wr in enumerate(W.wires) if wr.getSource() is not None]
                 free = [i for i, wr in enumerate(W.wires) if wr.getSource() is None]
                 if fault and prims and driven: o, w = rng.choice(prims), rng.choice(driven)
@@ -366,6 +404,36 @@ def build_block(entry, w, skip_driver=None):
                 py4hw.Constant(hw, 'drv%d' % k, 1, wr)
         make(py4hw, hw, I, O)
     return py4hw, hw, I, O
+
+
+ATTR_POOL = ['clock', 'propagate', 'run', 'structureName', 'verilogBody', 'clk', 'a', 'b', 'r', 'q', 'sel', 'en', 'reset', 'children_', 'value']
+
+
+def build_wrapped(entry, w, attr_names, with_inner=True):
+    """the usual user idiom: a STRUCTURAL cell that keeps each port wire in an attribute (`self.clock = self.addIn('clock', clock)`) and
+    instantiates the library block inside.  attr_names come from ATTR_POOL, which contains the method names the kernel probes.
+    with_inner=False: the single-fault variant in which the inner block (the only driver of the outputs) is missing."""
+    py4hw = common.quiet_import()
+    name, _, ins, outs, make = entry
+    class Cell(py4hw.Logic):
+        def __init__(self, parent, iname, I, O):
+            super().__init__(parent, iname)
+            names = list(attr_names)
+            for k, wire in enumerate(I):
+                setattr(self, names[k % len(names)] if k < len(names) else 'in%d' % k, self.addIn('i%d' % k, wire))
+            for k, wire in enumerate(O):
+                j = len(I) + k
+                setattr(self, names[j] if j < len(names) else 'out%d' % k, self.addOut('o%d' % k, wire))
+            if with_inner:
+                make(py4hw, self, I, O)
+    with quiet():
+        hw = py4hw.HWSystem()
+        I = [hw.wire('i_' + n, wd) for n, wd in ins(w)]
+        O = [hw.wire('o_' + n, wd) for n, wd in outs(w)]
+        for k, wr in enumerate(I):
+            py4hw.Constant(hw, 'drv%d' % k, 1, wr)
+        cell = Cell(hw, 'cell', I, O)
+    return py4hw, hw, cell, I, O
 
 
 def real_integrity(py4hw, obj):
